@@ -7,7 +7,8 @@ see vf/xlref/c10_lazy.py for the expression format) and random digraphs.
 BOOK = 'b.xlsx'
 NAMES = ['NM_A', 'NM_B', 'NM_C', 'NM_D']
 
-STRICT_KINDS = [('arith', 8), ('range', 5), ('name', 3), ('name-range', 2), ('cond', 2), ('iferror-first', 3)]
+STRICT_KINDS = [('arith', 8), ('range', 5), ('name', 3), ('name-range', 2), ('cond', 2), ('iferror-first', 3),
+                ('ifs-cond1', 2), ('ifs-late-cond', 8)]
 GUARD_KINDS = [('if-then', 8), ('if-else', 6), ('ifs', 6), ('iferror', 5), ('ifna', 4), ('if-range', 5),
                ('if-name', 3), ('nested', 3), ('ifs-nodefault', 2)]
 
@@ -141,6 +142,19 @@ def gen_wb(rnd, tier='quick', max_n=None):
                 return ['SUM', nm] if nm else ['SUM', rect_around(tgt)]
             if kind == 'cond':
                 return ['IF', ['>', R(tgt), 0], 10, 20]
+            if kind in ('ifs-cond1', 'ifs-late-cond'):
+                # a reference in a CONDITION of IFS is never avoidable (only value branches are), whatever the
+                # earlier conditions say: earlier conditions are constants / non-circular guards, TRUE and FALSE
+                cond = ['>', R(tgt), 0] if rnd.random() < 0.7 else R(tgt)
+                if kind == 'ifs-cond1':
+                    return ['IFS', cond, 10, True, 20]
+                e = ['IFS']
+                for n_ in range(rnd.randint(1, 2)):
+                    e += [guard(rnd.random() < 0.5), 30 + n_]
+                e += [cond, 10]
+                if rnd.random() < 0.7:
+                    e += [True, 20]
+                return e
             return ['IFERROR', R(tgt), 1000]
         kind = wchoice(rnd, GUARD_KINDS)
         if kind == 'if-then':
